@@ -477,6 +477,110 @@ CHECKS["C01"] = {'design_ref': 'DESIGN.md section 6 C01, sections 2.5, 7 (KF1)',
          'message channel closed) now satisfies c01_pair_ok and is outside c01_d17_class; the corresponding case under CUBIC (the former witness on the real code) runs first in the '
          'component pair_sockdrop (message channels closed in mid-transfer), where c01_pair_ok itself must hold.'}
 
+# ---------------------------------------------------------------------------------------------------
+# Session 3: what was added to each check (appended to the texts above; see DESIGN.md 12.5 / 12.6)
+def _more(prop, text=None, note=None, technique=None):
+    if text:
+        CHECKS[prop]["text"] = CHECKS[prop]["text"] + " ADDED: " + text
+    if note:
+        CHECKS[prop]["note"] = CHECKS[prop]["note"] + " ADDED: " + note
+    if technique:
+        CHECKS[prop]["technique"] = technique
+
+
+_more("C02",
+      "predicate c02_no_silent_stall (after a completed poll a segment that was cut but never sent, with nothing of ours in flight, no "
+      "recovery and both windows wide enough, does not sit there with the retransmission timer off) evaluated on every implementation "
+      "trace; closed-loop generators idle_after_history (send history incl. RTO rewinds, one cumulative ACK of everything, then "
+      "shutdown / drop / write on the idle connection) and probe_blackhole (the MTU probe and its retransmissions silently discarded). "
+      "Defect D20 (FIN never sent on a connection that went idle after an RTO rewind and a full cumulative ACK) found, repaired in /repo "
+      "(1233027) and in the model (acked_counts_as_sent); regression theorem c02_fin_after_rto_rewind_regression.",
+      "c02_no_silent_stall is monitored, not a theorem. c02_timer_ok is FALSE of the model in one corner (a stale recovery-pipe timer "
+      "kept across a poll that blocked on the transport makes the next sleep earlier than the earliest timer of the fingerprint: "
+      "harmless early wake-up; witness by the C02 proof branch) - the guarded form is the theorem.")
+_more("C03",
+      "cancellation: component vdrop drops the REAL connection future in mid-flight (op X: Drop for VirtualSocket, the only code run when "
+      "the socket's cancellation token fires) at a random point of a scenario and then makes application calls on the halves that are "
+      "left; the model side is drop_vsock followed by the component models; differential on every observation (results, wake-ups of the "
+      "parked reader / writer); extracted predicates c03_drop_wakes_ok (a parked reader and a parked writer are woken by the drop) and "
+      "c03_post_drop_ok (no later read / flush / shutdown parks, no write is accepted; a write may yield once, self-woken).",
+      "the post-drop predicates are monitored; the component theorems c03_drop_resolves / c03_write_after_close / c03_flush_after_close / "
+      "c03_read_after_close_never_pending are what they rest on.")
+_more("C05",
+      "generator profile peer_data_small_wnd (two-way traffic: the peer's own ST_DATA with a payload above our segment size carries a SMALL "
+      "window, we always have more to send, several polls against the same advertised window) - the only way the congestion "
+      "controller's window and last_remote_window disagree. The verdict logic no longer lets predicate failures inside a known class "
+      "(D16) mask model/implementation disagreements or later failures.")
+_more("C07",
+      "window update: the fingerprint now carries UserRx::last_remaining_rx_window, so the window an ACK would advertise is computable "
+      "from it (fp_rx_window = rx_window, lemma fp_rx_window_spec); predicate c07_window_update_ok (after a completed poll the window last "
+      "advertised and the current one are on the same side of zero, until the peer's FIN) is a THEOREM of every model trace "
+      "(c07_window_update_ok_model, from c07_no_pending_immediate_ack) and is evaluated on every implementation trace; half-closed "
+      "(FinWait1 / FinWait2) receive scenarios added to the generators.")
+CHECKS["C08"]["text"] = CHECKS["C08"]["text"] + (
+    " Connection level (added): component vsock_deadline - the M3 correspondence on closing scenarios (C17's generators plus the "
+    "closed-loop generator close_with_data_outstanding: data and FIN outstanding together, acknowledged by one cumulative ACK / "
+    "separately / not at all, then silence or the peer's FIN) with the extracted predicate c08_deadline_ok (a poll that leaves the "
+    "connection alive with its own FIN out has the inactivity / final-chance deadline armed and asked to be woken no later) on every "
+    "implementation trace; component vdrop (cancellation: the real connection future dropped in mid-flight, then every half reports "
+    "errors and nothing parks; see C03).")
+CHECKS["C08"]["note"] = CHECKS["C08"]["note"].replace(
+    "Partial: termination of the connection task within a bounded time and silence after Ready are connection-level "
+    "(timers of VirtualSocket::poll) and are not covered by this check;",
+    "Partial: c08_deadline_ok is monitored on implementation traces (the model theorem 'a deadline stays armed until Ready' is not "
+    "proved); that the armed deadline is reached is the timer wheel's job;")
+_more("C09",
+      "trace-shift clause: component vsock_shift runs every scenario TWICE on the real VirtualSocket, the second time with our initial "
+      "sequence number, the peer's and the connection id relabelled (and every message of the peer relabelled accordingly) so that the "
+      "16-bit wrap falls inside the transfer; the extracted predicate c09_shift_ok (Conn/C09_Pred.v) requires the second trace to be the "
+      "first one relabelled, field by field (every packet's seq/ack/connection id, the whole state fingerprint, results, wake-ups, timer "
+      "arms). Claimed inside the tolerance guard c09_within_tol (all compared distances within WRAP_TOLERANCE / 4) only; traces outside it "
+      "are counted as not judged.",
+      "the model theorem c09_trace_shift (the same statement about ftrace of the model) is not proved yet at this commit: the trace-shift "
+      "clause is decided by the metamorphic run on the implementation (testing) plus the arithmetic theorems.",
+      "Coq proof (lia over mod 2^16) + row-exhaustive correspondence + metamorphic relabelling runs judged by an extracted predicate")
+_more("C10",
+      "WHOLE-POLL THEOREMS (Conn/VSock_Poll*.v, 2400 lines): the strengthened joint invariant vs_x (vs_inv + per-segment send-time and "
+      "MTU-probe facts + clock range) is preserved by process_incoming_message, recv_loop, process_all_incoming_messages, poll_body, the "
+      "restart loop (each restart at least halves max_ss - min_ss, so the 64 iterations of fuel are never exhausted: c10_restart_halves, "
+      "c10_poll_loop_no_panic) and every event; c10_run_no_panic_no_bug: from vsock_new with a valid configuration, for EVERY op list "
+      "(any messages incl. malformed ones, any send scripts, any application calls, clock values within range) no step of the trace "
+      "panics or reports a Bug error other than BugEmsgSizeNoProbe; c10_run_no_bug_strict: no Bug error at all when the transport never "
+      "answers EMSGSIZE; c10_step_ok_model_nolimit: the extracted predicate holds on every such model trace. No sequence-number or "
+      "tolerance hypothesis anywhere. Defect D21 (calc_pipe index panic on an ACK for never-sent segments with more than 1024 segments "
+      "queued) was found by this proof, reproduced on the real code, repaired in /repo (c2f6a01); c10_calc_pipe_never_panics. Socket "
+      "half: component disp_hostile drives the real Dispatcher with raw datagrams of every kind (garbage, truncation, bad version / "
+      "type nibbles, extension chains that do not fit, payload rules, well-formed packets with unknown extensions aimed at live and "
+      "unknown ids); the model is the extracted wire parser composed with the dispatcher model; a PANIC, an eviction or a forward to a "
+      "connection the datagram does not name fails the predicate.",
+      "the theorems assume cc_total (the congestion controller's on_ack does not panic; for CUBIC that is the Duration addition "
+      "t + rtt not overflowing) and clock values in [0, SAMPLE_BOUND]. The text above that says the composition through poll_body is "
+      "not proved is superseded by these theorems.")
+_more("C12",
+      "predicate c12_syn_fresh_ok (the connection id a SYN announces - the id the new outgoing connection will receive on - is not the key "
+      "of an existing connection) evaluated on every implementation trace; raw datagrams go through the extracted wire parser before the "
+      "dispatcher model.",
+      "c12_syn_fresh_ok is monitored at this commit (the pigeonhole proof about next_free_conn_id is on the disp proof branch).")
+CHECKS["C14"]["text"] = CHECKS["C14"]["text"].replace(
+    "NOT covered here (connection level, later): sizes of emitted datagrams, at most one outstanding probe and it is the newest "
+    "segment, data intact on a black-holing path (D1, KF1).",
+    "Connection level: component vsock_mtu - the M3 correspondence on EMSGSIZE / blackhole scenarios with the extracted predicates "
+    "c14_datagram_ok (every emitted datagram <= link MTU - IP - UDP headers) and c14_segments_ok (ordinary segments <= the proven size at "
+    "enqueue, at most one undelivered probe and it is the newest segment, floor <= mss <= max_ss <= ceiling), monitored on every "
+    "implementation trace; data intact on a black-holing path is C01 (pair tier, known class KF1).")
+_more("C17",
+      "STEP AND TRACE THEOREMS (Conn/C17_Step.v, Conn/C17_StepLemmas.v, 3800 lines, 33 theorems): c17_reset_ok, c17_fin_number_step_ok, "
+      "c17_synack_ok (from vsock_new, 0 <= max_retransmissions) and c17_reset_trace_ok hold of EVERY step / every trace of the model; "
+      "c17_fin_after_data_ok is false of the model in one corner (channel closed AND the FIN fails on the transport: "
+      "c17_fin_after_data_ok_refuted) - the proven form c17_fin_after_data_noerr is what is evaluated on implementation traces; the "
+      "segmented-bytes bound it needs is an invariant (c17_seg_bounds_trace).",
+      "the sentence above that no vstep-level theorem is proved is superseded for these five predicates; c17_fin_seq_ok and "
+      "c17_peer_fin_ok remain monitored.")
+_more("C19",
+      "waker identity: the harness polls every application call under a FRESH waker (util::WakerSet); a wake-up that reaches only a waker "
+      "older than the last parked call's is reported as stale and disagrees with the model - a writer that was re-polled under another "
+      "waker while the buffer is full must be woken through THAT waker when acknowledgements free space.")
+
 ALL = ["C%02d" % i for i in range(1, 20)]
 NOT_APPLICABLE = {p: "check not built yet at this commit (planned: DESIGN.md section 6); not claimed"
                   for p in ALL if p not in CHECKS}
